@@ -476,6 +476,7 @@ static void run(const Scenario &sc, Reporter &rep) {
 }
 
 int main() {
+    std::ios::sync_with_stdio(false);     // the scripts are large; stdin is only read through std::cin, stdout only written through stdio
     (void) cocls::coro_queue::queue_impl::instance._queue.size();   // construct the thread-local deque now
     return replay_main(std::cin, [](const Scenario &sc, Reporter &rep) {
         if (sc.hdr.at("payload").as_str("int") == "tracked") run<Tracked>(sc, rep);
